@@ -142,6 +142,18 @@ theorem C05_random_state : randomInit = 1 ∧ ∀ n, randomSeq randomInit n = ra
 
 example : randomSeq randomInit 3 = [1, 48271, 182605794, 1291390782] := by decide
 
+/-- **The PRNG restarts with every table application, on a recycled buffer too.**  The state an apply context starts from
+    on a buffer that has been through earlier shape() calls which drew random alternates (probed from the crate through the
+    public api + hook `random_sequence_on`, `Gen.Lifecycle.randomSeedRecycled`) is the state of a fresh one: the numbers drawn in
+    a shaping call do not depend on how many an earlier use of the same buffer object drew. -/
+theorem C05_random_state_restarts (earlier n : Nat) :
+    applyCtxRandomInit earlier = 1 ∧ randomSeq (applyCtxRandomInit earlier) n = randomSeq (applyCtxRandomInit 0) n := by
+  have h0 : randomInit = 1 := by decide
+  have h1 : Gen.Lifecycle.randomSeedRecycled = 1 := by decide
+  have h : ∀ k, applyCtxRandomInit k = 1 := by
+    intro k; unfold applyCtxRandomInit; split <;> assumption
+  exact ⟨h earlier, by rw [h earlier, h 0]⟩
+
 end RbModel.Life
 
 namespace RbModel.Sched
